@@ -88,6 +88,9 @@ impl FromStr for DomainName {
         };
 
         let mut domain_name = DomainName::default();
+        if string == "." {
+            return Ok(domain_name);
+        }
         for label in string_relativ.split('.') {
             let label = label.parse()?;
             domain_name.append_label(label)?;
